@@ -22,12 +22,12 @@ CHECK = {
         quick=dict(runs=300000, wall=90), thorough=dict(runs=12000000, wall=1500),
         rule="one evaluation = one seeded history against a real ChannelArbitrator: HTLC sets for the local / remote / remote-pending commitments (0-6 HTLCs, offered and "
              "received, dust per commitment, expiries around the current height, preimage knowledge, forwarded vs own, anchors or legacy), broadcast deltas, grace period and uptime "
-             "drawn per run; then stimuli: block epochs (incl. skipped heights), ContractUpdates replacing the sets, preimage learned, user force close, and one close event (local / "
+             "drawn per run; then stimuli: block epochs (incl. skipped heights), ContractUpdates replacing the sets, preimage learned, user force close, up to two graceful restarts with 0-8 blocks of downtime while the node has not gone on chain yet (the arbitrator is stopped, the chain moves on, a new arbitrator is built from the log with the HTLC sets the channel holds now and started at the new height; its uptime starts again), and one close event (local / "
              "remote / remote-pending / breach / coop confirmed) at an arbitrary height, possibly after the arbitrator already broadcast. After every stimulus to quiescence: "
              "must-close / must-not-close; after the close event: resolvers vs HTLC outputs of the confirmed commitment, upstream fail-backs, received-dust outcomes. "
              "non-trivial = a close event was delivered with at least one HTLC on some commitment, or a must-close cell was reached; distinct = distinct event-trace hash",
         states_measure="distinct (arbitrator state, height offset, set sizes, close kind) tuples",
-        expected_probes=["probe_must_close_cell", "probe_chain_triggered_force_close", "probe_user_force_close", "probe_close_local", "probe_close_remote",
+        expected_probes=["fault_restart_with_downtime", "probe_restart_past_a_broadcast_cut_off", "probe_must_close_cell", "probe_chain_triggered_force_close", "probe_user_force_close", "probe_close_local", "probe_close_remote",
                          "probe_close_remote-pending", "probe_close_breach", "probe_close_after_broadcast", "probe_confirmed_with_htlc_outputs",
                          "probe_offered_dust_on_confirmed", "probe_offered_only_on_unconfirmed", "probe_received_dust_on_confirmed",
                          "probe_unclaimable_received_past_cutoff_no_close", "probe_preimage_learned",
